@@ -163,6 +163,9 @@ const TypesSchema = `module types { namespace "urn:types"; prefix t; revision 0;
     leaf lre { type leafref { path "../e"; } }
     leaf-list llr { type leafref { path "../s"; } }
     leaf-list lli8 { type leafref { path "../i8"; } }
+    leaf eq { type enumeration { enum "a\"b"; enum "c\\d"; enum "t\tb"; enum "q'x"; enum "<&>"; enum "sp ace"; } }
+    leaf lridr { type leafref { path "../idr"; } }
+    leaf lrbits { type leafref { path "../bits"; } }
     leaf-list lbits { type bits { bit x; bit y; bit z; } }
     leaf-list lidr { type identityref { base base-id; } }
     leaf-list lbin { type binary; }
